@@ -83,7 +83,9 @@ CLAIMED = {
     "C12": dict(
         text="per_apid (interleaving independence: what an APID sees equals the per-APID group automaton run on its own "
              "sub-history, by induction on the history), emitted_iff (a group is emitted exactly when closed by LAST with "
-             "consecutive counts mod 16384; consecutive_spec), combined_bytes, at_most_once (counting invariant: no raw packet "
+             "consecutive counts mod 16384; consecutive_spec), complete_group (from any state, FIRST + any number of CONTINUATIONs + "
+             "LAST with consecutive counts yields exactly one output made of exactly those packets, and the APID is idle "
+             "after; induction on the group length), combined_bytes, at_most_once (counting invariant: no raw packet "
              "contributes to two outputs), drop_warnings. Tied to the code by exhaustive short histories over flags x APIDs x "
              "sequence relations, random long ones, wrap-around groups, and a reference automaton as oracle.",
         design="§7 C12", technique="Lean 4 proof (simulation + counting invariant) + correspondence check"),
